@@ -117,7 +117,7 @@ def sampleParse (impl : String) (n : String) (v : JV) : ParseOut :=
     | _ => .refused
   | _ => defaultScalarParse n v
 
-def sampleParseLiteral (impl : String) (n : String) (l : Lit) : ParseOut :=
+def sampleParseLiteral (impl : String) (n : String) (vars : List (String × PV)) (l : Lit) : ParseOut :=
   match impl with
   | "even" =>
     match l with
@@ -134,7 +134,7 @@ def sampleParseLiteral (impl : String) (n : String) (l : Lit) : ParseOut :=
     | .str s => sampleParse "pos" n (.str s)
     | .bool b => sampleParse "pos" n (.bool b)
     | _ => .raised
-  | _ => defaultScalarParseLiteral n l
+  | _ => defaultScalarParseLiteral n vars l
 
 def regOfWire (j : J) : Reg :=
   let impls : List (String × String) := (j.arrD "types").filterMap fun t =>
@@ -142,7 +142,7 @@ def regOfWire (j : J) : Reg :=
   let implOf (n : String) : String := ((impls.find? fun p => p.1 == n).map (·.2)).getD "identity"
   { types := (j.arrD "types").map namedOfWire,
     customParse := fun n v => sampleParse (implOf n) n v,
-    customParseLiteral := fun n l => sampleParseLiteral (implOf n) n l,
+    customParseLiteral := fun n vs l => sampleParseLiteral (implOf n) n vs l,
     customHasParseLiteral := fun n => implOf n != "pos" }
 
 def pairs {α} (f : J → α) (j : J) (k : String) : List (String × α) :=
